@@ -1128,7 +1128,7 @@ def trcopy_drift(scripts, traces):
     compared = bad = 0
     first = None
     for sc in scripts:
-        if not {'trcopy', 'sortprim', 'trsort'} & set(sc.get('tags', [])):
+        if not {'trcopy', 'sortprim', 'trsort', 'wordops'} & set(sc.get('tags', [])):
             continue
         tr = traces.get(sc['tid'])
         if not tr:
@@ -1139,11 +1139,11 @@ def trcopy_drift(scripts, traces):
                 break
             compared += 1
             ex = o['expect']
-            if any(list(e.get(k, [])) != list(v) for k, v in ex.items()):
+            if any((list(e.get(k, [])) != list(v)) if isinstance(v, list) else (e.get(k) != v) for k, v in ex.items()):
                 bad += 1
                 first = first or dict(tid=sc['tid'], op={k: v for k, v in o.items() if k != 'expect'}, predicted=ex,
                                       recorded={k: e.get(k) for k in ex})
-    return dict(compared=compared, disagreements=bad, first=first, model='TrCopy.tla (trCopy, trPartialCopy), SortPrims.tla (trHeapSort, trInsertionSort), TrSortImpl.tla (trSort)')
+    return dict(compared=compared, disagreements=bad, first=first, model='TrCopy.tla (trCopy, trPartialCopy), SortPrims.tla (trHeapSort, trInsertionSort), TrSortImpl.tla (trSort), WordOps.tla (lcp, lcs)')
 
 
 def run_suffix(ctx, fam):
@@ -1172,6 +1172,9 @@ def run_suffix(ctx, fam):
             vlib.tlc_mc(ctx, 'TrSortMC.tla', 'TrSortMC_T.cfg', workers='16', timeout=3000)
         sops = vlib.tlc_enum(ctx, 'TrSortMC.tla', 'TrSortMC_genT.cfg' if t else 'TrSortMC_gen.cfg', timeout=3000)
         scripts += chunk_suffix(sops, 'trsort-enum', 1000, ['tlc-enum', 'trsort'])
+        log('[C09] word-wise lcp / lcs of bytes.go (WordOps.tla; every length relation to the 8- and 4-byte steps)')
+        wops = vlib.tlc_enum(ctx, 'WordOps.tla', 'WordOps_gen.cfg', timeout=1200)
+        scripts += chunk_suffix(wops, 'wordops-enum', 1000, ['tlc-enum', 'wordops'])
         fam = dict(fam, _drift=trcopy_drift)
         log('[C09] LCP by the phi algorithm (LcpPhi.tla: the carried length is sound, the table is the definition)')
         vlib.tlc_mc(ctx, 'LcpPhi.tla', 'LcpPhi_T.cfg' if t else 'LcpPhi.cfg', workers='16', timeout=1500)
